@@ -266,6 +266,90 @@ static void cmd_inc(int nt, char **t)
 	ob_printf(&out, "= %d", json_object_int_inc(H[h], (int64_t)LL(t[2])));
 }
 
+/* ---------------- printbuf (C19) ----------------
+ * PB new | free | reset
+ * PB app   <a|r> <arg> <seed>      printbuf_memappend of n bytes; a: n = arg, r: n = (size - bpos) + arg (clamped at 0)
+ * PB fast  <a|r> <arg> <seed>      printbuf_memappend_fast
+ * PB str   <k>                     printbuf_strappend of the k-th fixed literal
+ * PB appx  <size> <srclen>         printbuf_memappend(size) from a source block of only srclen bytes (must-refuse arguments)
+ * PB set   <a|b|s|m> <arg> <ch> <la|lr> <len>   printbuf_memset; offset: a absolute, b bpos+arg, s size+arg, m -1; len: la absolute, lr (size - offset) + len
+ * PB fmt   <a|r> <arg> <seed>      sprintbuf("%s", n bytes of [a-z])
+ * PB fmtd  <int>                   sprintbuf("%d|%s|%5.2f", int, "xy", 1.5)
+ * every reply: = ret=<r> errno=<e> n=<n used> off=<offset used> bpos=<> size=<> blk=<real block size> term=<buf[bpos] or -1> crc=<crc32 of buf[0..bpos)> head=<hex of first 24 bytes>
+ */
+static struct printbuf *PB;
+static uint32_t crc32_buf(const unsigned char *p, size_t n)
+{
+	static uint32_t tab[256]; static int init; uint32_t c = 0xFFFFFFFFu; size_t i;
+	if (!init) { uint32_t k, j; for (k = 0; k < 256; k++) { uint32_t x = k; for (j = 0; j < 8; j++) x = (x & 1) ? 0xEDB88320u ^ (x >> 1) : x >> 1; tab[k] = x; } init = 1; }
+	for (i = 0; i < n; i++) c = tab[(c ^ p[i]) & 0xFF] ^ (c >> 8);
+	return c ^ 0xFFFFFFFFu;
+}
+static void pb_state(int ret, int err, long n, long off)
+{
+	ob_printf(&out, "= ret=%d errno=%d n=%ld off=%ld", ret, err, n, off);
+	if (!PB) { ob_puts(&out, " nopb"); return; }
+	ob_printf(&out, " bpos=%d size=%d blk=%ld term=%d crc=%u head=x", PB->bpos, PB->size, (long)vf_block_size(PB->buf),
+	          (PB->bpos >= 0 && PB->bpos < PB->size) ? (int)(unsigned char)PB->buf[PB->bpos] : -1,
+	          (PB->bpos >= 0 && PB->bpos <= PB->size) ? crc32_buf((unsigned char *)PB->buf, (size_t)PB->bpos) : 0u);
+	if (PB->bpos >= 0 && PB->bpos <= PB->size) ob_hex(&out, PB->buf, PB->bpos < 24 ? (size_t)PB->bpos : 24);
+}
+static void fill_pattern(unsigned char *b, long n, unsigned seed, int alpha)
+{
+	long i;
+	for (i = 0; i < n; i++) { unsigned v = (seed + (unsigned)i * 7u) & 0xFF; b[i] = alpha ? (unsigned char)('a' + v % 26) : (unsigned char)v; }
+}
+static void cmd_pb(int nt, char **t)
+{
+	const char *op = t[1]; int r = 0, e = 0; long n = 0, off = 0;
+	if (!strcmp(op, "new")) { if (PB) printbuf_free(PB); PB = printbuf_new(); pb_state(PB != NULL, 0, 0, 0); return; }
+	if (!PB) { ob_puts(&out, "! no printbuf"); return; }
+	if (!strcmp(op, "free")) { printbuf_free(PB); PB = NULL; ob_puts(&out, "= freed"); return; }
+	if (!strcmp(op, "reset")) { printbuf_reset(PB); pb_state(0, 0, 0, 0); return; }
+	if (!strcmp(op, "app") || !strcmp(op, "fast") || !strcmp(op, "fmt")) {
+		long arg = L(t[3]); unsigned seed = (unsigned)UL(t[4]); unsigned char *src; int alpha = !strcmp(op, "fmt");
+		if (nt < 5) { ob_puts(&out, "! PB args"); return; }
+		/* relative sizes fill the buffer to its capacity, i.e. force a doubling each time: stop doing that once the buffer is large */
+		n = (t[2][0] == 'r' && PB->size <= 8192) ? (long)(PB->size - PB->bpos) + arg : arg;
+		if (n < 0) n = 0;
+		src = (unsigned char *)malloc((size_t)n + 1); fill_pattern(src, n, seed, alpha); src[n] = 0;
+		errno = 0;
+		if (!strcmp(op, "app")) { unsigned char *ex = (unsigned char *)malloc(n ? (size_t)n : 1); memcpy(ex, src, (size_t)n); r = printbuf_memappend(PB, (char *)ex, (int)n); e = errno; free(ex); }
+		else if (!strcmp(op, "fast")) { unsigned char *ex = (unsigned char *)malloc(n ? (size_t)n : 1); memcpy(ex, src, (size_t)n); printbuf_memappend_fast(PB, (char *)ex, (int)n); r = (int)n; e = errno; free(ex); }
+		else { r = sprintbuf(PB, "%s", (char *)src); e = errno; }
+		free(src);
+		pb_state(r, e, n, 0); return;
+	}
+	if (!strcmp(op, "str")) {
+		int k = (int)L(t[2]);
+		errno = 0;
+		switch (k) {
+		case 0: r = printbuf_strappend(PB, ""); n = 0; break;
+		case 1: r = printbuf_strappend(PB, "a"); n = 1; break;
+		case 2: r = printbuf_strappend(PB, "null"); n = 4; break;
+		default: r = printbuf_strappend(PB, "0123456789abcdefghijklmnopqrstuvwxyzABCDEFGHIJKLMNOPQRSTUVWXYZ"); n = 62; break;
+		}
+		e = errno; pb_state(r, e, n, 0); return;
+	}
+	if (!strcmp(op, "appx")) {
+		long size = L(t[2]), srclen = L(t[3]); char *src = (char *)malloc(srclen ? (size_t)srclen : 1);
+		memset(src, 'x', (size_t)srclen);
+		errno = 0; r = printbuf_memappend(PB, src, (int)size); e = errno; free(src);
+		pb_state(r, e, size, 0); return;
+	}
+	if (!strcmp(op, "set")) {
+		long arg = L(t[3]); int ch = (int)L(t[4]); long len = L(t[6]); long o2;
+		if (nt < 7) { ob_puts(&out, "! PB args"); return; }
+		switch (t[2][0]) { case 'b': off = PB->bpos + arg; break; case 's': off = (PB->size <= 8192 ? PB->size : PB->bpos) + arg; break; case 'm': off = -1; break; default: off = arg; }
+		o2 = off == -1 ? PB->bpos : off;
+		if (t[5][1] == 'r') { if (PB->size <= 8192) len = (long)PB->size - o2 + len; if (len < 0) len = 0; }
+		errno = 0; r = printbuf_memset(PB, (int)off, ch, (int)len); e = errno;
+		pb_state(r, e, len, off); return;
+	}
+	if (!strcmp(op, "fmtd")) { errno = 0; r = sprintbuf(PB, "%d|%s|%5.2f", (int)L(t[2]), "xy", 1.5); e = errno; pb_state(r, e, 0, 0); return; }
+	ob_puts(&out, "! PB op");
+}
+
 /* PUT <h> -> = <ret> del=..   (handle is cleared) */
 static void cmd_put(int nt, char **t)
 {
@@ -289,6 +373,7 @@ static void dispatch(int nt, char **t)
 	else if (!strcmp(c, "D")) cmd_dump(nt, t);
 	else if (!strcmp(c, "S")) cmd_ser(nt, t);
 	else if (!strcmp(c, "S64")) cmd_ser64(nt, t);
+	else if (!strcmp(c, "PB")) cmd_pb(nt, t);
 	else if (!strcmp(c, "NUM")) cmd_num(nt, t);
 	else if (!strcmp(c, "SET")) cmd_set(nt, t);
 	else if (!strcmp(c, "INC")) cmd_inc(nt, t);
@@ -323,6 +408,7 @@ int main(int argc, char **argv)
 		if (!strcmp(tokv[0], "END")) {
 			int i;
 			for (i = 0; i < NT; i++) if (T[i]) { json_tokener_free(T[i]); T[i] = NULL; }
+			if (PB) { printbuf_free(PB); PB = NULL; }
 			ob_printf(&out, "E live=%ld bad=%ld loc=%ld", vf_live_blocks - base_live, vf_bad_frees, vf_loc_live);
 			if (vf_live_blocks - base_live > 0) {
 				const void *p, *site; size_t sz;
